@@ -598,12 +598,13 @@ def _prepare_czt_basis(N, M, K, shift, alpha, dtype, norm=False):
     # index of the first output sample relative to the first input sample: both grids put
     # their origin at n//2 (fftrange), so the offset is N//2 - M//2 for every parity combination
     start = -(N//2 - M//2) + shift
-    j = np.arange(-start, -start+M, dtype=dtype)  # do not need a "-1" because arange is naturally end-exclusive
+    # M samples starting at -start (integer count: a fractional start must not change the length through rounding)
+    j = np.arange(M, dtype=dtype) - start
     # j is an index variable
     h[:M] = np.pi * (j * j)
 
     # check for off-by-1 bug
-    j = np.arange(-start-N+1, -start, dtype=dtype)
+    j = np.arange(N-1, dtype=dtype) + (-start-N+1)
     h[K-N+1:K] = np.pi * (j * j)
 
     # order matters, scalar * scalar * array avoids operations on whole array over and over again
